@@ -3,7 +3,7 @@ CONSTANTS
   MaxLeaves = 4
   MaxArity = 3
   UnaryUpTo = 4
-  Pats = {1, 2}
+  Pats = {1, 3}
 INVARIANT L_Domain
 INVARIANT L_PathSums
 INVARIANT L_AsBinary
